@@ -16,6 +16,8 @@ def gen_world(rng, pid):
     if pid == "C19":
         inner_fields.append(["d1", "scalar", "Int32", {"default": 42}])
         inner_fields.append(["d2", "scalar", "Int32", {"factory": 7}])
+        inner_fields.append(["d3", "scalar", "Int64", {"default": 1000000}])
+        inner_fields.append(["d4", "scalar", "Float64", {"default": 1.0}])
         if rng.random() < 0.5: inner_fields.append(["w", "array", "Float64", [3]])
     inner = {"fields": inner_fields}
     if rng.random() < (0.7 if pid == "C19" else 0.4): inner["rename"] = {"a": "alpha"}
@@ -81,7 +83,9 @@ class HModel:
             if f[1] in ("scalar", "string", "array"):
                 out[f[0]] = fval(rng, f)
                 if f[1] == "scalar" and len(f) > 3 and f[3]:
-                    out[f[0]] = rng.choice([f[3].get("default", f[3].get("factory")), 42, 7, 5, 9, fval(rng, f)])
+                    d = f[3].get("default", f[3].get("factory"))
+                    near = d + 1e-9 * (1 + abs(d)) if f[2].startswith("Float") else (d + 1 if abs(d) >= 100000 else d)
+                    out[f[0]] = rng.choice([d, d, near, near, 42, 7, 5, 9, fval(rng, f)])
             elif f[1] == "nested":
                 out[f[0]] = self.defaults(f[2], rng)
             elif f[1] == "ref":
@@ -138,7 +142,7 @@ def gen_case(rng, nops, pid):
     if holes: push({"op": "raw_alloc", "buf": "B0", "size": rng.choice([8, 24, 40]), "name": "h0"})
     new("i1", "Inner", rng.choice(["B0", "B1", "B2"]))
     new("o", "Outer", rng.choice(["B0", "B0", "Nown_o"]))      # N..: a buffer of its own (the object sits at offset 0)
-    if "Mid" in world["classes"] and not has_refs(world, "Mid"):
+    if "Mid" in world["classes"]:
         new("m0", "Mid", rng.choice(["B0", "B0", "B1"]))      # a dressed object that has a dressed part of its own
     if "InnerD" in world["classes"]:
         new("e0", "InnerD", "B0"); new("e1", "InnerD", "B0")
@@ -146,6 +150,8 @@ def gen_case(rng, nops, pid):
         # the buffer is used up to its end, then a slot in the middle is released
         push({"op": "fill", "buf": "B0"}); push({"op": "raw_free", "name": "h0"})
     if rng.random() < 0.5: new("o2", "Outer", "B0")
+    if pid == "C20" and rng.random() < 0.6:
+        push({"op": "grow", "buf": "B0", "extra": rng.choice([8, 64, 4096])})      # the buffer has grown before anything is pickled
     spec_of = lambda c: world["classes"][c]
     # a directed prefix (C18): an object shared by two reference fields stays pinned when ONE of them is reset
     if pid == "C18" and "o2" in M.objs and any(f[1] == "ref" for f in spec_of("Outer")["fields"]) \
@@ -169,6 +175,9 @@ def gen_case(rng, nops, pid):
             name = "d%d" % k
             M.objs[name] = {"cls": M.objs[src]["cls"], "buf": "B0", "fields": copy.deepcopy(M.objs[src]["fields"]), "movable": True}
             push({"op": "to_dict_roundtrip", "src": src, "name": name, "buf": "B0"})
+        elif pid == "C20" and r < 0.36 and any(n.startswith("p") for n in M.objs):
+            # the restored buffer is a working buffer: it grows (by little or by much) and everything stays
+            push({"op": "grow_obj", "obj": rng.choice([n for n in M.objs if n.startswith("p")]), "extra": rng.choice([8, 8, 24, 64, 5000])})
         elif pid == "C20" and r < 0.3:
             pool = [n for n, o in M.objs.items() if not o.get("anon")]
             names = rng.sample(pool, rng.randint(1, min(3, len(pool))))
@@ -313,7 +322,7 @@ def judge_case(pid, c, r):
     for k, (op, st) in enumerate(zip(c["ops"], r["steps"])):
         kind = op["op"] + ("-" + op["kind"] if "kind" in op else "")
         mine = {"C18": op["op"] in ("new", "set", "set_item", "copy", "move", "grow"), "C19": op["op"] == "to_dict_roundtrip",
-                "C20": op["op"] in ("pickle", "set", "set_item")}[pid]
+                "C20": op["op"] in ("pickle", "set", "set_item", "grow_obj")}[pid]
         if op["op"] in ("set", "set_item") and pid == "C20":
             mine = op["obj"].startswith("p")       # usability of unpickled objects
         refused = op.get("refused", False)
